@@ -275,6 +275,9 @@ def _cases(draw):
     case["lp"] = draw(st.booleans())
     case["costs"] = draw(st.sampled_from([None, None, None, {"fp": 0.5, "fn": 1.0}, {"fp": 1.0, "fn": 0.25}, {"fp": 1.0, "fn": 1.0}]))
     case["tune_bound"] = draw(st.sampled_from([None, None, None, 1e-7, 3e-8]))
+    if not case["lp"] and draw(st.integers(0, 3)) == 0:
+        case["max_iter"] = draw(st.sampled_from([70, 100, 140]))  # long runs of the plain exponentiated-gradient iteration
+        case["nu"] = 0.0
     return case
 
 
